@@ -581,6 +581,10 @@ def shiftprune(states, wavenums, shift, *, grid=1e-5, tol=1e-8):
     k2[..., idx2T, :] = k2T
     k2[..., idx1T, :] = k1T
     k2[..., idxL, :] = kL
+    # states merged into one cell: keep the table antisymmetric about a zero centre
+    centre = (n2 - 1) // 2
+    k2[..., :centre, :] = -k2[..., :centre:-1, :]
+    k2[..., centre, :] = 0
 
     # keep only non-zero phase states
     axes = tuple(range(sm.ndim - 2)) + (-1,)
